@@ -797,7 +797,7 @@ func c35Families(thorough bool) []c35Family {
 			// AE: exactly one enable event
 			{"AE", mk("AE", []int{2, 3}, []int64{500}, []int{term}, full, lat[:1], c35Statuses(6)), 0, 1, true},
 			// B: <=2 vote events and <=1 enable event
-			{"B", mk("B", []int{2, 3}, []int64{0, 500}, []int{term}, c35BaseTables(2), lat[:1], c35Statuses(2)), 2, 1, true},
+			{"B", mk("B", []int{2, 3}, []int64{500}, []int{term}, c35BaseTables(2), lat[:1], c35Statuses(2)), 2, 1, true},
 		}
 	}
 	return []c35Family{
@@ -858,6 +858,13 @@ func TestVerifC35(t *testing.T) {
 			base := fam.configs[i]
 			var local, lRew, lVot, lMulti, lWage, lCap, lUnreg, lNothing, lEn, lTwo int64
 			c35EventSeqs(base, fam.maxVotes, fam.maxEnable, fam.skipEmpty, func(evs []c35Event) {
+				if atomic.LoadInt32(&stopped) != 0 {
+					return
+				}
+				if local&255 == 255 && r.Expired() {
+					atomic.StoreInt32(&stopped, 1)
+					return
+				}
 				c := *base
 				c.Events = evs
 				res := c35Exec(&c)
